@@ -494,6 +494,114 @@ def level1(rep, wd):
     return n
 
 
+# -----------------------------------------------------------------------------------------------------------------
+# B13.trsm: the dispatch of blas::trsm(side, fill, diagonal, alpha, a, b) — solves a x = alpha b (left) or x a = alpha b (right) in place of b, with the
+# `fill` triangle of a — against the reference-BLAS contract of xTRSM(side, uplo, transa, diag, m, n, alpha, A', lda, B', ldb):
+#     side 'L': op(A') X = alpha B'      side 'R': X op(A') = alpha B'      X overwrites the m x n column-major B', uplo names the triangle of A'
+TRSM_DRIVER = r"""
+#include <boost/multi/adaptors/blas/trsm.hpp>
+#include <complex>
+namespace multi = boost::multi;
+using cplx = std::complex<double>;
+struct TCtx { void trsm(char side, char uplo, char trans, char diag, long m, long n, cplx alpha, cplx const* a, long lda, cplx* b, long ldb); };
+static inline auto mk0() { return multi::layout_t<0>{multi::monostate{}, multi::monostate{}, 0, 1}; }
+static inline auto mk1(long s0, long o0, long n0) { return multi::layout_t<1>{mk0(), s0, o0, n0}; }
+static inline auto mk2(long s0, long o0, long n0, long s1, long o1, long n1) { return multi::layout_t<2>{mk1(s1, o1, n1), s0, o0, n0}; }
+#define TP TCtx* ctx, char sd, char fl, cplx* ab, long a0, long a1, long K, cplx* bb, long b0, long b1, long M, long N, double ar, double ai
+#define TOPS multi::subarray<cplx, 2> a(mk2(a0, 0, K*a0, a1, 0, K*a1), ab), b(mk2(b0, 0, M*b0, b1, 0, N*b1), bb); \
+	auto const side = static_cast<multi::blas::side>(sd); auto const fill = static_cast<multi::blas::filling>(fl); auto const dg = multi::blas::diagonal::non_unit
+extern "C" void t_NN(TP) { TOPS; multi::blas::trsm(ctx, side, fill, dg, cplx{ar, ai}, a, b); }
+extern "C" void t_CN(TP) { TOPS; multi::blas::trsm(ctx, side, fill, dg, cplx{ar, ai}, multi::blas::conj(a), b); }
+extern "C" void t_NC(TP) { TOPS; multi::blas::trsm(ctx, side, fill, dg, cplx{ar, ai}, a, multi::blas::conj(b)); }
+// conj(a), conj(b): the library's branch for two conjugated operands does not compile on the pinned tree (`bbase` is undeclared): loud, not analysed
+extern "C" void t_enum(long* out) { out[0] = static_cast<char>(multi::blas::side::left); out[1] = static_cast<char>(multi::blas::side::right);
+	out[2] = static_cast<char>(multi::blas::filling::lower); out[3] = static_cast<char>(multi::blas::filling::upper); out[4] = static_cast<char>(multi::blas::diagonal::non_unit); }
+"""
+
+
+def trsm_rule(rep, wd):
+    src = os.path.join(wd, "trsm.cpp")
+    with open(src, "w") as fh:
+        fh.write(TRSM_DRIVER)
+    text = irval.emit_ir(src, src[:-4] + ".ll", defines=("-UNDEBUG", "-fno-vectorize", "-fno-slp-vectorize", "-mllvm", "-inline-threshold=1000000"))
+    funcs, structs = irval.parse_module(text)
+    ev = irval.Evaluator(funcs, structs)
+    ev.record_external = lambda c: c.startswith("_ZN4TCtx")
+    rep.units.add("trsm.cpp")
+    ev.run("t_enum", [A("out")], {"out": POS})
+    enum = {k: int(ev.stores[8 * k].const_value()) for k in range(5)}
+    LEFT, RIGHT, LOWER, UPPER, NONUNIT = (enum[k] for k in range(5))
+    n = 0
+    layouts = (("row-major", {"0": lambda ext, p: ext + A(p), "1": lambda ext, p: P.const(1)}), ("col-major", {"0": lambda ext, p: P.const(1), "1": lambda ext, p: ext + A(p)}))
+    for variant, conjA, conjB in (("NN", False, False), ("CN", True, False), ("NC", False, True)):
+        for sname, sd in (("left", LEFT), ("right", RIGHT)):
+            for fname_, fl in (("lower", LOWER), ("upper", UPPER)):
+                for (an, al_), (bn, bl_) in itertools.product(layouts, repeat=2):
+                    M, N = 2 + A("mx"), 2 + A("nx")
+                    K = M if sd == LEFT else N
+                    env = {"a0": al_["0"](K, "ap"), "a1": al_["1"](K, "ap"), "b0": bl_["0"](N, "bp"), "b1": bl_["1"](M, "bp")}
+                    signs = {"ab": POS, "bb": POS, "ctx": POS, "mx": NONNEG, "nx": NONNEG, "ap": NONNEG, "bp": NONNEG}
+                    args = [A("ctx"), P.const(sd), P.const(fl), A("ab"), env["a0"], env["a1"], K, A("bb"), env["b0"], env["b1"], M, N,
+                            irval.atom("float", "ar"), irval.atom("float", "ai")]
+                    case = "%s %s a:%s b:%s" % (sname, fname_, an, bn)
+                    key = "B13.trsm<%s>[%s]" % (variant, case)
+                    n += 1
+                    try:
+                        ev.run("t_" + variant, args, signs)
+                        calls = list(ev.extcalls)
+                    except irval.AssertFires as e:
+                        rep.ok(key, "B13.reject", dict(rejected=str(e)[:80]), nontrivial=False)
+                        continue
+                    except irval.Inconclusive as e:
+                        rep.inconclusive(key, "B13.trsm", str(e))
+                        continue
+                    if len(calls) != 1:
+                        rep.violated(key, "B13.trsm", "trsm<%s> (%s) neither calls xTRSM nor rejects the combination" % (variant, case), dict(case=case))
+                        continue
+                    this, S, U, T, Dg, m, nn, are, aim, pa, lda, pb, ldb = calls[0][1]
+                    S, U, T, Dg = (int(x.const_value()) for x in (S, U, T, Dg))
+                    i, j, l = A("i"), A("j"), A("l")
+                    why = []
+                    # B' orientation
+                    badr = pb + (i + j * ldb) * ELEM
+                    same = badr == A("bb") + (i * env["b0"] + j * env["b1"]) * ELEM and m == M and nn == N
+                    trans = badr == A("bb") + (j * env["b0"] + i * env["b1"]) * ELEM and m == N and nn == M
+                    if not (same or trans):
+                        why.append("B'[i + j ldb] with (m, n) = (%r, %r) is neither b[i][j] nor b[j][i]" % (m, nn))
+                    # A' orientation
+                    aadr = pa + (i + l * lda) * ELEM
+                    a_same = aadr == A("ab") + (i * env["a0"] + l * env["a1"]) * ELEM
+                    a_trans = aadr == A("ab") + (l * env["a0"] + i * env["a1"]) * ELEM
+                    if not (a_same or a_trans):
+                        why.append("A'[i + l lda] is neither a[i][l] nor a[l][i]")
+                    if not why:
+                        # required: side flips with the orientation of B'; op(A') = conj^cB(a), transposed iff B' is transposed; alpha' = conj^cB(alpha)
+                        want_side = (LEFT if sd == LEFT else RIGHT) if same else (RIGHT if sd == LEFT else LEFT)
+                        if S != want_side:
+                            why.append("side '%s', expected '%s' (B' is %s)" % (chr(S), chr(want_side), "b" if same else "b transposed"))
+                        eff_transposed = a_trans != (T != 78)
+                        if eff_transposed != trans:
+                            why.append("op(A') is %sthe transpose of a but B' is %sthe transpose of b" % ("" if eff_transposed else "not ", "" if trans else "not "))
+                        eff_conj = (T == 67) != conjA
+                        if eff_conj != conjB:
+                            why.append("op(A') %s the logical a although b is %s" % ("conjugates" if eff_conj else "does not conjugate", "conjugated" if conjB else "not conjugated"))
+                        logical_upper = fl == UPPER
+                        want_upper = logical_upper != a_trans          # 'U' names the triangle of the stored A'
+                        if (U == 85) != want_upper:
+                            why.append("uplo '%s' names the wrong triangle of A' (logical %s triangle of a, A' is %s)" % (chr(U), fname_, "a transposed" if a_trans else "a"))
+                        if Dg != NONUNIT:
+                            why.append("diag '%s'" % chr(Dg))
+                        want_im = irval.atom("fneg", irval.atom("float", "ai")) if conjB else irval.atom("float", "ai")
+                        if are != irval.atom("float", "ar") or aim != want_im:
+                            why.append("alpha' = (%r, %r), expected %salpha" % (are, aim, "conj " if conjB else ""))
+                    if why:
+                        rep.violated(key, "B13.trsm", "trsm<%s> (%s): the xTRSM call ('%s','%s','%s',m=%r,n=%r,lda=%r,ldb=%r) does not solve the stated system: %s"
+                                     % (variant, case, chr(S), chr(U), chr(T), m, nn, lda, ldb, "; ".join(why)), dict(case=case, reasons=why))
+                    else:
+                        rep.ok(key, "B13.trsm", None)
+    return n
+
+
 def run(tier):
     rep = common.Report("C13", tier, "other",
                         "one obligation per (dispatcher variant, size case, layout case of each operand): the BLAS call issued on that case denotes the product, "
@@ -640,6 +748,8 @@ def run(tier):
                         rep.ok(key, "B13.gemv", None)
                     else:
                         rep.violated(key, "B13.gemv", "the xGEMV call issued for %s is not the product: %s" % (case, "; ".join(why)[:300]), dict(case=case, reason=why))
+    ntr = trsm_rule(rep, wd)
+    rep.need_instances("B13.trsm cases", ntr, 48)
     nl1 = level1(rep, wd)
     rep.need_instances("B13.l1 wrapper cases", nl1, 25)
     rep.extra["distinct_blas_calls"] = {"%s %s" % k: v for k, v in sorted(leaves.items())}
